@@ -296,3 +296,21 @@ fn u16_2_flags_accessors() {
         }
     }
 }
+
+
+// the packed alpha plane of a RAW1 level: the readers (BLP1/2 with locator, BLP0 external mips) take ceil(n * depth / 8)
+// bytes - the byte count the packing loops of the encoder produce (u16_4_*), so a partly filled last byte is not dropped
+// @harness unit=U16.5 props=C16,C05 kind=complete timeout=300 target="parser/direct/blp1.rs: parse_raw1 and blp0.rs: parse_raw1_image alpha plane length (E11 blocks), all pixel counts and headers" oracle=blp_alpha
+#[kani::proof]
+#[kani::unwind(4)]
+#[kani::stub(alloc::fmt::format, stub_format)]
+fn u16_5_raw1_alpha_plane_length() {
+    let v: u8 = kani::any();
+    kani::assume(v < 3);
+    let h = any_header(v);
+    let n: u32 = kani::any();
+    let bits = h.alpha_bits() as u64;
+    let want = (n as u64 * bits + 7) / 8;
+    assert!(blk_raw1_alpha_len_blp1(&h, n) == want, "locator reader: alpha plane = ceil(pixels * depth / 8) bytes");
+    assert!(blk_raw1_alpha_len_blp0(&h, n) == want, "BLP0 reader: alpha plane = ceil(pixels * depth / 8) bytes");
+}
